@@ -132,3 +132,33 @@ def c04_sheet_name_not_requoted(w, v):
         inner = sheet[1:-1] if sheet.startswith("'") else sheet
         return "'" in inner.replace("''", '')
     return not sheet.startswith("'")
+
+
+@matcher('c18_function_named_like_reference')
+def c18_function_named_like_reference(w, v):
+    """`=A1(1)+A1`: the text `A1(` is tokenised as a call of a function named
+    A1; its function-node id then collides with the data node of the reference
+    A1 used elsewhere in the formula and schedula raises ValueError."""
+    if not v['sig'].startswith('escape:ValueError:'):
+        return False
+    obs = w.get('observed') or ''
+    if 'Invalid data id: override function ' not in obs:
+        return False
+    name = obs.rsplit('override function ', 1)[1].strip()
+    text = ''.join(((w.get('case') or {}).get('text') or '').upper().split())
+    return bool(name) and (name.upper() + '(') in text
+
+
+@matcher('c02_concat_number_rendering')
+def c02_concat_number_rendering(w, v):
+    """& renders a number with python's '%d' / str(): 1E+200 becomes a
+    201-digit integer and 1E-200 becomes '1e-200', where Excel's General
+    format gives 1E+200 / 1E-200.  Only for operands >= 1e15 or < 1e-9."""
+    import re
+    parts = v['sig'].split(':')
+    if parts[0] != '&' or not parts[-1] == 'text->text':
+        return False
+    if 'numbig' not in parts[1] and 'numtiny' not in parts[1]:
+        return False
+    obs = w.get('observed') or ''
+    return bool(re.search(r'[0-9]{16,}', obs) or re.search(r'[0-9]e[+-][0-9]', obs))
